@@ -223,6 +223,14 @@ def _mtok(m):
     import hashlib
     if isinstance(m, str) and type(m) is str and len(m) > 2000:
         return f"S{len(m)}:{hashlib.sha1(m.encode()).hexdigest()}"      # long text: length + digest
+    if isinstance(m, np.ndarray) and m.dtype != object and m.size > 500:
+        # long numeric array: kind, shape and a digest of its bytes (exact, and far cheaper than its token form)
+        return f"A{m.dtype.kind}{m.dtype.itemsize}{list(m.shape)}:{hashlib.sha1(np.ascontiguousarray(m).tobytes()).hexdigest()}"
+    if isinstance(m, np.ndarray) and m.dtype == object and m.ndim == 1:
+        return "O[" + " ".join(_mtok(x) for x in m) + "]"
+    if isinstance(m, dict) and not isinstance(m, ipc.NetworkClientDictHandle) and any(
+            isinstance(x, np.ndarray) and x.size > 500 for x in m.values()):
+        return "M{" + " ".join(sorted(_mtok(k) + "=" + _mtok(x) for k, x in m.items())) + "}"
     t = tok(m)
     if len(t) > 4000:
         return f"H{len(t)}:{hashlib.sha1(t.encode()).hexdigest()}"      # long value: digest of its canonical form
@@ -247,13 +255,13 @@ def big_values(rng, quick):
     def vec(n):
         return np.frombuffer(rng.randbytes(8 * n), dtype=np.int64).copy()
     out = []
-    for n in ([8200, 9000] if quick else [8192, 8200, 8300, 12000, 20000]):
+    for n in ([8200] if quick else [8192, 8200, 8300, 12000, 20000]):
         out.append(vec(n))
     nested = np.empty(3, dtype=object)
     nested[0], nested[1], nested[2] = 1, vec(8500), "a"
     out.append(nested)
-    out.append({1: vec(8300), "k": "v"})
     if not quick:
+        out.append({1: vec(8300), "k": "v"})
         m = vec(2 * 5000).reshape(2, 5000)
         out.append(m)
         out.append("".join(chr(rng.randrange(0x100, 0x2000)) for _ in range(40000)))     # high-entropy text
@@ -358,7 +366,7 @@ def run_concurrent_senders(ctx, drv, rig, twin):
     KiB = 1024
 
     def text(n):
-        return "".join(rng.choice("abcdefgh") for _ in range(n))
+        return rng.randbytes(n // 2 + 1).hex()[:n]
 
     configs = [[300 * KiB, 10], [70 * KiB, 300 * KiB, 10], [1024 * KiB, 300 * KiB]]
     if not quick:
@@ -645,7 +653,8 @@ def run_framing(ctx, drv, twin):
                     run_stream_batch(ctx, drv, rig, "long-merged:" + shape, frames, objs, ids, full, cuts,
                                      lazy=lazy, model_max=1 if quick else 8)
                 # and truncated inside / right after the long frame
-                for cutlen in sorted({ends[0] - 1, ends[-1] - 1, 20 + 2 ** 16, n - 3}):
+                for cutlen in sorted({ends[0] - 1, 20 + 2 ** 16} if quick else
+                                     {ends[0] - 1, ends[-1] - 1, 20 + 2 ** 16, n - 3}):
                     if 0 < cutlen < n:
                         c = [(cutlen, cutlen), (0, 0)] + [(m, cutlen) for m in marks if m <= cutlen][:4]
                         run_stream_batch(ctx, drv, rig, "long-truncated:" + shape, frames, objs, ids,
